@@ -201,6 +201,7 @@ OVERRIDES = {
     # repeated=1 is the absence of the attribute (reads None): the domain starts at 2
     ("Row", "repeated"): [None, 0, 2, 5], ("Column", "repeated"): [None, 2, 5], ("Cell", "repeated"): [None, 2, 5],
 }
+FALSY_NORMALISED = set()     # (class, argument) whose property documents a normalisation of the falsy value -- none so far
 ZERO_IS_NOT_A_VALUE = {("Row", "repeated"), ("TocEntryTemplate", "outline_level")}   # a count / level that starts at 1
 NCNAMES = ["x", "Name_1", "id-7", "true", "é中"]      # xml:id values must be NCNames (libxml2 rejects others at parse time)
 # minimal valid keyword arguments of classes whose constructor needs some
@@ -220,13 +221,15 @@ def values_for(cls, arg, ann, default, odfdo, tier):
         return ["#ff0000", "blue", None]
     a = ann.replace(" ", "")
     out = []
+    # every type contributes its FALSY member too (0, 0.0, "", False, timedelta(0), (), []): an explicit falsy value is a value
     if "bool" in a: out += [True, False]
     if re.search(r"\bint\b", a): out += [0, 1, 7]
+    if re.search(r"\bfloat\b", a): out += [0.0, 2.5]
     if re.search(r"\bstr\b", a) and "list[str]" not in a: out += STRS
-    if "list[str]" in a: out += [["A1:B2", "C3:D4"]]
-    if "tuple" in a: out += [("1cm", "2.5cm")]
+    if "list[str]" in a: out += [["A1:B2", "C3:D4"], []]
+    if "tuple" in a: out += [("1cm", "2.5cm"), ()]
     if "datetime" in a: out += [DT]
-    if "timedelta" in a: out += [TD]
+    if "timedelta" in a: out += [TD, timedelta(0)]
     if "Element" in a and "str" not in a: out += [odfdo.Paragraph("p")]
     if "None" in a or default == "None": out += [None]
     return out
@@ -306,10 +309,26 @@ def load_reference():
     return {(c, p): a for c, p, a in re.findall(r'\("([^"]+)", \("([^"]+)", "([^"]+)"\)\)', txt)}
 
 
+def load_guard_reference():
+    """the hand-maintained reference table coq/theories/CtorGuardSpec.v: (class, argument) -> guard kind"""
+    txt = (common.TH / "CtorGuardSpec.v").read_text()
+    return {(c, a): g for c, a, g in re.findall(r'\("([^"]+)", \("([^"]+)", (\(GGe -?\d+\)|G\w+)\)\)', txt)}
+
+
+def is_falsy_value(v):
+    if v is None:
+        return False
+    try:
+        return not bool(v)
+    except Exception:
+        return False
+
+
 class Ctx:
     """everything the case runners need"""
     def __init__(self, odfdo, info):
         self.reference = load_reference()
+        self.guard_reference = load_guard_reference()
         self.odfdo = odfdo
         self.info = info
         from odfdo.element import _class_registry, Element, ODF_NAMESPACES
@@ -496,6 +515,21 @@ def run_ctor(ctx, d):
         if e is None:
             continue
         hist.append(("ctor-arg", e["kind"]))
+        # an explicit FALSY value (0, "", False, timedelta(0), ()) is a value: where the reference says the argument is stored
+        # always / whenever it is not None, the property must expose it (a guard weakened to truthiness drops it: C12-6)
+        refg = ctx.guard_reference.get((d["cls"], a))
+        if (refg in ("GNone", "GNotNone") and is_falsy_value(v) and e.get("prop") and (d["cls"], a) not in FALSY_NORMALISED):
+            conv_ = v
+            if e.get("conv") == "CConv":
+                conv_ = apply_named(ctx, ci, e["convf"], v)
+            elif e.get("conv") == "COrDefault":
+                conv_ = v or eval(e["convf"])
+            rb_ = raw_get(inst, e["prop"])
+            want_ = conv_ if isinstance(conv_, (bool, type(None))) else (conv_ if not e.get("attr") else str(conv_))
+            if not (rb_ == want_ or expected_custom(conv_, rb_)):
+                fails.append(("ctor-arg-falsy-dropped/%s.%s" % (d["cls"], a),
+                              "%s(%s=%r): the reference (CtorGuardSpec.v) says %s, the property %s reads %r instead of %r"
+                              % (d["cls"], a, v, refg, e["prop"], rb_, want_)))
         # 0 is a value: an int argument given as 0 must be exposed (0 vs None), unless 0 means nothing for that argument
         if (e["kind"] == "Stored" and v == 0 and isinstance(v, int) and not isinstance(v, bool) and re.search(r"\bint\b", e["annotation"])
                 and (d["cls"], a) not in ZERO_IS_NOT_A_VALUE and not (e["guard"].startswith("GGe:") and int(e["guard"][4:]) > 0)
@@ -1313,7 +1347,7 @@ def run(tier, seed, replay=None):
                 "dispatch mechanism for all registration sequences (C12_registry_is_a_function, C12_first_registrant_wins, C12_known_tag_dispatches, C12_unknown_tag_falls_back)",
                 "generated registry: own tags, effectiveness of every registration call, fallback, model = live dict (finite sweeps, bound = the tables)",
                 "generic attribute property laws incl. the exact exception set (C12_attr_*)",
-                "constructor arguments stored through generic properties are exposed after the whole constructor (C12_ctor_args_exposed, C12_ctor_flags_exposed); no argument dropped"],
+                "constructor arguments stored through generic properties are exposed after the whole constructor (C12_ctor_args_exposed, C12_ctor_flags_exposed); no argument dropped; guards equal the reference CtorGuardSpec.v (C12_ctor_guards_match_reference); no __init__ writes when wrapping (C12_wrapping_never_writes_static)"],
         not_proved=["well-formedness and infoset equality of the lxml serialisation, same class and equal property values after re-parsing: differential testing (python level) on every case",
                     "class identity through children / get_elements / get_element / xpath / parent / root / clone / typed finders: observed pairs compared in Coq with the model registry, for the generated trees (depth <= 3) and the sample documents only",
                     "arguments stored through hand-written properties, under conditions on other arguments, handed to a method (ViaHelper), stored component-wise (StoredIndexed) or used in other ways (Unrecognised): differential testing only (see ctor_table_kinds)"],
